@@ -25,17 +25,21 @@ Inductive binop :=
 | Or | And | BOr | BXor | BAnd | EqO | NeO | LtO | LeO | GtO | GeO | Shl | Shr
 | Add | Sub | Mul | Div | Mod.
 Inductive unop := Not | Neg | BNot | Addr | Deref.
+(* the prefix KEYWORDS of parseUnary (expression_parser.cpp: `await e` since v0.12.0, `try e` / `checked e` since
+   v0.13.1): like the five prefix operators each of them calls parseUnary again, one C++ frame per keyword *)
+Inductive kwop := KAwait | KTry | KChecked.
 
 Inductive tok :=
 | TNum (s : str) | TId (s : str) | TOp (o : binop)
 | TNot | TTilde | TInc | TDec
+| TKw (k : kwop)
 | TLP | TRP | TLB | TRB | TDot | TArrow | TQ | TColon | TComma
 | TAsg (o : option binop)
 | TSemi | TRBrace | TOther.
 
 Inductive expr :=
 | Num (s : str) | Var (x : str)
-| Bin (o : binop) (a b : expr) | Un (u : unop) (a : expr)
+| Bin (o : binop) (a b : expr) | Un (u : unop) (a : expr) | Kw (k : kwop) (a : expr)
 | Pre (inc : bool) (a : expr) | Post (inc : bool) (a : expr)
 | Idx (a i : expr) | Mem (a : expr) (m : str) | Arrow (a : expr) (m : str)
 | Call (f : str) (args : list expr)
@@ -84,7 +88,62 @@ Fixpoint generic_scan (depth : nat) (ts : list tok) : bool :=
            | _ => generic_scan depth r
            end
   end.
-(* number of tokens that look-ahead reads *)
+(* since fix 98a0163 the look-ahead reads at most [scan_bound] tokens (`if (++scanned_tokens > 256) break;` is the
+   first statement of the loop body): [generic_scan_b n] is the loop as coded, [n] = iterations it may still make;
+   when they run out `<` is the comparison operator.  [generic_scan] above is the bound-free loop of the code before
+   the fix; it stays as the hazard that [lookahead_unbounded_quadratic] is about. *)
+Fixpoint generic_scan_b (n depth : nat) (ts : list tok) {struct ts} : bool :=
+  match ts with
+  | [] => false
+  | t :: r =>
+      match n with
+      | O => false
+      | S n =>
+          if scan_stop t then false
+          else match t with
+               | TOp LtO => generic_scan_b n (S depth) r
+               | TOp GtO =>
+                   match depth with
+                   | S (S d) => generic_scan_b n (S d) r
+                   | _ => match r with TLP :: _ => true | _ => false end
+                   end
+               | _ => generic_scan_b n depth r
+               end
+      end
+  end.
+Definition scan_bound : nat := 256.
+(* tokens the bounded loop examines *)
+Fixpoint generic_scan_b_cost (n depth : nat) (ts : list tok) {struct ts} : nat :=
+  match ts with
+  | [] => 0
+  | t :: r =>
+      match n with
+      | O => 0
+      | S n =>
+          if scan_stop t then 1
+          else match t with
+               | TOp LtO => S (generic_scan_b_cost n (S depth) r)
+               | TOp GtO =>
+                   match depth with
+                   | S (S d) => S (generic_scan_b_cost n (S d) r)
+                   | _ => 1
+                   end
+               | _ => S (generic_scan_b_cost n depth r)
+               end
+      end
+  end.
+(* tokens read by all look-aheads of the CURRENT code on a token list: one bounded scan per "identifier <" *)
+Fixpoint scan_total_b (ts : list tok) : nat :=
+  match ts with
+  | [] => 0
+  | TId _ :: r => match r with
+                  | TOp LtO :: r1 => generic_scan_b_cost scan_bound 1 r1 + scan_total_b r
+                  | _ => scan_total_b r
+                  end
+  | _ :: r => scan_total_b r
+  end.
+
+(* number of tokens the bound-free look-ahead reads *)
 Fixpoint generic_scan_cost (depth : nat) (ts : list tok) : nat :=
   match ts with
   | [] => 0
@@ -148,13 +207,16 @@ Definition closer (ts : list tok) : bool :=
   | (TSemi | TComma | TRP | TRBrace | TRB) :: _ => true
   | _ => false
   end.
-Definition unary_tok (ts : list tok) : option (unop * list tok) :=
+(* the eight self-recursive prefix productions of parseUnary: `await`, `try`, `checked` (keyword branches, tested
+   first) and ! - ~ & * (operator branch); the result is the AST constructor and the rest *)
+Definition unary_tok (ts : list tok) : option ((expr -> expr) * list tok) :=
   match ts with
-  | TNot :: r => Some (Not, r)
-  | TOp Sub :: r => Some (Neg, r)
-  | TTilde :: r => Some (BNot, r)
-  | TOp BAnd :: r => Some (Addr, r)
-  | TOp Mul :: r => Some (Deref, r)
+  | TKw k :: r => Some (Kw k, r)
+  | TNot :: r => Some (Un Not, r)
+  | TOp Sub :: r => Some (Un Neg, r)
+  | TTilde :: r => Some (Un BNot, r)
+  | TOp BAnd :: r => Some (Un Addr, r)
+  | TOp Mul :: r => Some (Un Deref, r)
   | _ => None
   end.
 Definition valid_target (o : option binop) (l : expr) : bool :=
@@ -225,7 +287,7 @@ with p_unary (f : nat) (ts : list tok) {struct f} : res (expr * list tok) :=
   | O => Fuel
   | S f =>
       match unary_tok ts with
-      | Some (u, r) => bind (p_unary f r) (fun ar => let (a, r') := ar in Ok (Un u a, r'))
+      | Some (u, r) => bind (p_unary f r) (fun ar => let (a, r') := ar in Ok (u a, r'))
       | None =>
           match ts with
           | TInc :: r =>
@@ -267,7 +329,7 @@ with p_primary (f : nat) (ts : list tok) {struct f} : res (expr * list tok) :=
       match ts with
       | TNum n :: r => Ok (Num n, r)
       | TId x :: TOp LtO :: r1 =>
-          if generic_scan 1 r1 then
+          if generic_scan_b scan_bound 1 r1 then
             match targs_list (S (List.length r1)) 0 r1 with
             | Some (n, TLP :: r2) =>
                 bind (p_args f r2) (fun ar =>
@@ -336,7 +398,8 @@ Definition punct_names : list (string * tok) :=
   [("TOK_NOT", TNot); ("TOK_BIT_NOT", TTilde); ("TOK_INCR", TInc); ("TOK_DECR", TDec);
    ("TOK_LPAREN", TLP); ("TOK_RPAREN", TRP); ("TOK_LBRACKET", TLB); ("TOK_RBRACKET", TRB);
    ("TOK_DOT", TDot); ("TOK_ARROW", TArrow); ("TOK_QUESTION", TQ); ("TOK_COLON", TColon);
-   ("TOK_COMMA", TComma); ("TOK_SEMICOLON", TSemi); ("TOK_RBRACE", TRBrace)].
+   ("TOK_COMMA", TComma); ("TOK_SEMICOLON", TSemi); ("TOK_RBRACE", TRBrace);
+   ("TOK_AWAIT", TKw KAwait); ("TOK_TRY", TKw KTry); ("TOK_CHECKED", TKw KChecked)].
 Fixpoint assoc {A} (k : string) (l : list (string * A)) : option A :=
   match l with
   | [] => None
